@@ -40,7 +40,10 @@ def one(rid):
         if rc != 0:
             return rid, "PATCH-DOES-NOT-APPLY", [out[-200:]]
         bad = []
+        only = [x for x in os.environ.get("REFAC_CHECKS", "").split(",") if x]  # e.g. REFAC_CHECKS=C04,C08
         for c in man["checks"]:
+            if only and c["property_id"] not in only:
+                continue
             rc, out = sh(c["quick_cmd"] + " --root %s --no-evidence" % scratch, cwd=VERIF)
             if rc != 0:
                 lines = [l for l in out.splitlines() if ("::" in l and not l.startswith(("NOTE", "KNOWN"))) or l.startswith("ANALYSIS-ERROR")]
@@ -69,7 +72,7 @@ def main():
                 print(l, flush=True)
             n_bad += status != "SILENT"
             results.append({"id": rid, "status": status, "lines": lines})
-    if not args:
+    if not args and not os.environ.get("REFAC_CHECKS"):
         with open(os.path.join(VERIF, "refactors", "RESULTS.json"), "w") as fh:
             json.dump(results, fh, indent=1)
     print("%d refactorings, %d not silent" % (len(ids), n_bad))
